@@ -8,6 +8,8 @@ namespace Emboss.Deps
 /-- `a` mentions `b`. -/
 def Edge (g : Graph) (a b : Nat) : Prop := b ∈ succs g a
 
+instance (g : Graph) (a b : Nat) : Decidable (Edge g a b) := inferInstanceAs (Decidable (b ∈ succs g a))
+
 /-- Reach⁺: a non-empty path of references. -/
 inductive ReachP (g : Graph) : Nat → Nat → Prop
   | single {a b} : Edge g a b → ReachP g a b
